@@ -166,6 +166,7 @@ class SWriter:
             self.e.pre_exists = self.e.exists          # old(exists), for "no overwrite without permission"
         self.e.exists = True
         self.e.initial = False
+        self.e.writes = self.writes                  # (position or None for append, bytes) of every write so far
         self.e.content = GzBytes(self.data, complete) if self.gz else self.data
 
     def truth(self):
